@@ -1,7 +1,9 @@
 package main
 
 import (
+	"bytes"
 	"context"
+	"errors"
 	"fmt"
 	"os"
 	"path/filepath"
@@ -32,6 +34,7 @@ type blockLog interface {
 	ConsumeByKeyBlocking(ctx context.Context, key []byte, off, max int64) (int64, []ref.Msg, error)
 	Close() error
 	Raw() klevdb.Log
+	AsLog() klevdb.Log // the wrapper itself seen as a klevdb.Log (calls go through the wrapper, not Raw())
 }
 
 type rawBlock struct{ l klevdb.BlockingLog }
@@ -52,25 +55,43 @@ func (b rawBlock) ConsumeByKeyBlocking(ctx context.Context, key []byte, off, max
 	nx, ms, err := b.l.ConsumeByKeyBlocking(ctx, key, off, max)
 	return nx, toRefs(ms), err
 }
-func (b rawBlock) Close() error    { return b.l.Close() }
-func (b rawBlock) Raw() klevdb.Log { return b.l }
+func (b rawBlock) Close() error      { return b.l.Close() }
+func (b rawBlock) Raw() klevdb.Log   { return b.l }
+func (b rawBlock) AsLog() klevdb.Log { return b.l }
 
-type typedBlock struct {
-	l klevdb.TBlockingLog[string, string]
+// poison is a value the typed wrapper's codec refuses to encode: a typed Publish containing it fails.
+var poison = []byte("\xff\xfepoison")
+
+type poisonCodec struct{}
+
+func (poisonCodec) Encode(t []byte, empty bool) ([]byte, error) {
+	if bytes.Equal(t, poison) {
+		return nil, errors.New("poisonCodec: unencodable value")
+	}
+	if empty {
+		return nil, nil
+	}
+	return t, nil
 }
 
-func fromT(ms []klevdb.TMessage[string, string]) []ref.Msg {
+func (poisonCodec) Decode(b []byte) ([]byte, bool, error) { return b, b == nil, nil }
+
+type typedBlock struct {
+	l klevdb.TBlockingLog[[]byte, []byte]
+}
+
+func fromT(ms []klevdb.TMessage[[]byte, []byte]) []ref.Msg {
 	out := make([]ref.Msg, len(ms))
 	for i, m := range ms {
-		out[i] = ref.Msg{Offset: m.Offset, T: m.Time.UnixMicro(), Key: []byte(m.Key), Value: []byte(m.Value)}
+		out[i] = ref.Msg{Offset: m.Offset, T: m.Time.UnixMicro(), Key: m.Key, Value: m.Value}
 	}
 	return out
 }
 
 func (b typedBlock) Publish(msgs []ref.Msg) (int64, []ref.Msg, error) {
-	tm := make([]klevdb.TMessage[string, string], len(msgs))
+	tm := make([]klevdb.TMessage[[]byte, []byte], len(msgs))
 	for i, m := range msgs {
-		tm[i] = klevdb.TMessage[string, string]{Key: string(m.Key), Value: string(m.Value)}
+		tm[i] = klevdb.TMessage[[]byte, []byte]{Key: m.Key, KeyEmpty: m.Key == nil, Value: m.Value, ValueEmpty: m.Value == nil}
 	}
 	nx, err := b.l.Publish(tm)
 	if err != nil {
@@ -94,16 +115,17 @@ func (b typedBlock) ConsumeBlocking(ctx context.Context, off, max int64) (int64,
 	return nx, fromT(ms), err
 }
 func (b typedBlock) ConsumeByKeyBlocking(ctx context.Context, key []byte, off, max int64) (int64, []ref.Msg, error) {
-	nx, ms, err := b.l.ConsumeByKeyBlocking(ctx, string(key), false, off, max)
+	nx, ms, err := b.l.ConsumeByKeyBlocking(ctx, key, key == nil, off, max)
 	return nx, fromT(ms), err
 }
-func (b typedBlock) Close() error    { return b.l.Close() }
-func (b typedBlock) Raw() klevdb.Log { return b.l.Raw() }
+func (b typedBlock) Close() error      { return b.l.Close() }
+func (b typedBlock) Raw() klevdb.Log   { return b.l.Raw() }
+func (b typedBlock) AsLog() klevdb.Log { return &typedRaw{t: b.l} }
 
 func openBlock(dir string, typed bool) (blockLog, error) {
 	opts := klevdb.Options{CreateDirs: true, KeyIndex: true, Rollover: 300}
 	if typed {
-		l, err := klevdb.OpenTBlocking[string, string](dir, opts, klevdb.StringCodec, klevdb.StringCodec)
+		l, err := klevdb.OpenTBlocking[[]byte, []byte](dir, opts, poisonCodec{}, poisonCodec{})
 		if err != nil {
 			return nil, err
 		}
@@ -135,6 +157,7 @@ type bActor struct {
 	cancelled  atomic.Bool
 	rawErr     error
 	atNext     int64 // NextOffset known when the waiter was created (sequentially)
+	expectFail bool  // publisher: the batch carries the poison value, the typed Publish must fail
 }
 
 type bRun struct {
@@ -248,6 +271,42 @@ func (br *bRun) startPublisher(a *bActor, n int) {
 			o.OutOffs = ref.OffsetsOf(written)
 		}
 		o.Done = true
+	})
+}
+
+// startPoisonPublisher publishes a big batch whose last value the typed codec cannot encode.
+func (br *bRun) startPoisonPublisher(a *bActor, n int) {
+	msgs := br.pubMsgs(n)
+	msgs[len(msgs)-1].Value = poison
+	a.expectFail = true
+	a.op = &cOp{Client: a.id, Kind: "publish", N: n, Pub: msgs}
+	br.start(a, func() {
+		o := a.op
+		o.Call = nowNS()
+		nx, written, err := br.l.Publish(o.Pub)
+		o.Ret = nowNS()
+		o.Next = nx
+		if err != nil {
+			o.Err = errClass(err)
+			o.ErrText = errText(err)
+		} else {
+			o.Pub = written
+			o.OutOffs = ref.OffsetsOf(written)
+		}
+		o.Done = true
+	})
+}
+
+// startNoise issues, through the wrapper itself, a call that is none of Publish, Close or a context
+// end: no waiter may be woken by it.
+func (br *bRun) startNoise(a *bActor, kind string) {
+	a.op = &cOp{Client: a.id, Kind: kind}
+	if kind == "delete" {
+		a.op.Offsets = []int64{0}
+	}
+	br.start(a, func() {
+		execOp(br.l.AsLog(), a.op)
+		a.op.Done = true
 	})
 }
 
@@ -397,8 +456,14 @@ func (br *bRun) judge(replay map[string]any, finalNext int64, closeOp *cOp) bool
 		case "publisher":
 			if a.op.Err == "" {
 				h.ops = append(h.ops, a.op)
+			} else if a.expectFail {
+				br.cov.Add("c18.poison_publish_failed", 1)
 			} else if closeOp == nil || closeOp.Call == 0 || a.op.Ret < closeOp.Call {
 				return report("error:Publish:"+a.op.Err, "Publish failed: "+a.op.ErrText)
+			}
+		case "noise":
+			if a.op.Kind == "delete" && a.op.Err == "" {
+				h.ops = append(h.ops, a.op)
 			}
 		case "waiter":
 			if a.op.Err == "" || a.op.Err == "ErrInvalidOffset" {
@@ -489,7 +554,9 @@ func (s bScenario) String() string {
 	return fmt.Sprintf("hold %s[%s bykey=%v]@%s + %v typed=%v second-waiter=%v tail-deleted=%v", s.held, s.offCls, s.byKey, s.window, s.secs, s.typed, s.prePark2, s.tailDel)
 }
 
-var bSecondaries = []string{"publish-pass", "publish-empty", "publish-2", "waiter-at", "waiter-beyond", "waiter-below", "cancel", "close"}
+var bSecondaries = []string{"publish-pass", "publish-empty", "publish-2", "waiter-at", "waiter-beyond", "waiter-below", "cancel", "close", "noise", "publish-poison"}
+
+var bNoiseKinds = []string{"sync", "gc", "stat", "delete", "next"}
 
 func enumerateBScenarios(tier string, seed int64, scale float64) []bScenario {
 	var out []bScenario
@@ -666,6 +733,18 @@ func runBScenario(cfg *RunCfg, rep *Reporter, cov *Cov, idx int, sc bScenario) {
 		case "publish-empty":
 			a = br.newActor("publisher")
 			br.startPublisher(a, 0)
+		case "publish-poison":
+			a = br.newActor("publisher")
+			if sc.typed {
+				br.startPoisonPublisher(a, 300)
+			} else {
+				br.startPublisher(a, 1) // only a codec can make Publish fail half-way
+			}
+		case "noise":
+			a = br.newActor("noise")
+			kind := bNoiseKinds[(idx+len(br.actors))%len(bNoiseKinds)]
+			br.startNoise(a, kind)
+			cov.Add("c18.noise."+kind, 1)
 		case "waiter-at":
 			a = mkWaiter("at", false)
 		case "waiter-beyond":
@@ -728,6 +807,12 @@ func runBScenario(cfg *RunCfg, rep *Reporter, cov *Cov, idx int, sc bScenario) {
 		}
 	}
 	closeReturned := closeOp != nil && closeOp.Done
+	if closeOp == nil {
+		// ground truth: a Publish that failed may still have appended
+		if nx, err := kNext(l.Raw()); err == nil && nx > finalNext {
+			finalNext = nx
+		}
+	}
 	ok := br.quiesce(replay, finalNext, closeReturned)
 	// epilogue: with everything quiet, a new call below NextOffset must return at once (a notifier
 	// left behind NextOffset by the calls above would park it)
